@@ -143,11 +143,20 @@ def check_C01(ctx):
         behs, n = gen_pairs(ctx, typ, 400 if quick else None)
         total += n
         viols += run_family(ctx, "pairs-" + typ, behs, C01_TAGS)
+    # longer concurrent histories per type: several edits per client before they meet (set-then-delete against a
+    # concurrent set, delete-then-insert against an insert, ...), two and three editors
+    n = 100 if quick else 3000
+    fams = []
+    for nm, alpha, extra, w in [("arr", "OpsArr", ARR, 10), ("obj", "OpsObj", OBJ, 6), ("nest", "OpsNest", OBJ, 6), ("txt", "OpsTxt", TXT, 8),
+                                ("cnt", "OpsCntWrap", dict(kinds=["n"], init=[]), 3), ("treet", "OpsTreeText", TREE, 10), ("treee", "OpsTreeElem", TREE, 6)]:
+        fams.append(dict(name="multi2-" + nm, alphabet=alpha, clients="Seq2", editors=E2, feat='{"idle"}', weight=w, maxedits=3, maxsyncs=4, **extra))
+        fams.append(dict(name="multi3-" + nm, alphabet=alpha, clients="Seq3", feat='{"idle"}', weight=w, maxedits=2, maxsyncs=4, **extra))
+    viols += sim_families(ctx, fams, C01_TAGS, n)
     fresh, known = split_known(ctx, viols)
     return "model_checking", fresh, known, mc_cov(ctx, behaviours_enumerated_by_tlc=total, exhaustive=not quick), ["memdb backend only"]
 
 
-C03_TAGS = {"Converged", "RefEquiv", "SyncNeverFails", "LogReplayable", "BuildNeverFails", "BuildEquiv", "EditNeverFails", "CloneEqRoot"}
+C03_TAGS = {"Converged", "RefEquiv", "SyncNeverFails", "LogReplayable", "BuildNeverFails", "BuildEquiv", "EditNeverFails", "CloneEqRoot", "MinVVSound"}
 
 
 def check_C03(ctx):
@@ -257,6 +266,12 @@ def check_C06(ctx):
         dict(name="clk-snap", alphabet="OpsGC", clients="Seq3", threshold=2, interval=2, feat='{"idle", "lateattach", "detach"}', late='{"c3"}', weight=10),
         dict(name="clk-snap1", alphabet="OpsTxt", clients="Seq3", threshold=1, interval=1, feat='{"idle", "lateattach", "detach", "reattach"}', late='{"c2"}',
              maxsess=2, weight=6, **TXT),
+        # snapshots stored while nobody is attached (no version-vector row: the stored lamport is all there is), served
+        # from a cold cache to a late attacher that then edits: its clock must still be ahead of what the snapshot held
+        dict(name="clk-alone", alphabet="OpsObj", clients="Seq2", editors=E2, threshold=1, interval=1,
+             feat='{"idle", "lateattach", "detach", "reattach", "evict"}', late='{"c2"}', maxsess=2, weight=6, maxedits=4, **OBJ),
+        dict(name="clk-alone-gcoff", alphabet="OpsCnt", clients="Seq2", editors=E2, threshold=1, interval=2,
+             feat='{"idle", "gcoff", "lateattach", "detach", "reattach", "evict"}', late='{"c2"}', maxsess=2, weight=2, maxedits=4, kinds=["n"], init=[]),
     ]
     viols = sim_families(ctx, fams, C06_TAGS, n)
     ok, out, rec = model_check(ctx, "YorkieGen", "mc_proto.cfg")
